@@ -1,8 +1,15 @@
 import PyGam.Model.Penalty
-import PyGam.Drv.Common
+import PyGam.Drv.TermParse
 namespace PyGam.Drv.C04
 open PyGam PyGam.Drv
 
+/-- the specification-level periodic family: cyclic second differences -/
+def perPen : Nat → Nat → Nat → Rat := fun n => cycPen n 2
+
+/-- operations of the C04 model driver
+* `pen derivative|periodic <n> <d>`, `pen l2|none <n>` → integer penalty matrix
+* `tpen <terms>`          → `TermList.build_penalties()` (exact rationals)
+* `termpen <i> <terms>`   → `terms[i].build_penalties()` -/
 def handle : List String → Option String
   | ["pen", "derivative", n, d] => do
       let n ← n.toNat?; let d ← d.toNat?
@@ -16,5 +23,16 @@ def handle : List String → Option String
   | ["pen", "none", n] => do
       let n ← n.toNat?
       some (showMatInt (matToLists n n (nonePen (α := Int))))
+  | "tpen" :: rest => do
+      let (terms, r) ← pTerms rest
+      if r ≠ [] then none else
+      let n := nCoefsAll terms
+      some (showMatRat (matToLists n n (penaltyAll perPen terms)))
+  | "termpen" :: i :: rest => do
+      let i ← i.toNat?
+      let (terms, r) ← pTerms rest
+      if r ≠ [] then none else
+      let t ← terms[i]?
+      some (showMatRat (matToLists t.nCoefs t.nCoefs (t.penalty perPen)))
   | _ => none
 end PyGam.Drv.C04
